@@ -240,7 +240,8 @@ func C18Generate() {
 	if err == nil {
 		if output {
 			vrt.Assert("print-once", nPrint == 1)
-			vrt.Assert("print-is-result", vrt.EffectStr(lastEffect("print:stdout"), 0) == string(res)+"\n")
+			// "appears on stdout identically": the very bytes, nothing appended
+			vrt.Assert("print-is-result", vrt.EffectStr(lastEffect("print:stdout"), 0) == string(res))
 		} else {
 			vrt.Assert("no-print-without-flag", nPrint == 0)
 		}
